@@ -41,7 +41,13 @@ type Case struct {
 	// HandlerLogs: the ErrorHandler itself logs ("write failed") through an audit logger whose
 	// destination fails too: that event is a failed event of its own and gets its own report
 	HandlerLogs bool `json:"handler_logs,omitempty"`
+	// RelevelAt/RelevelTo: before event RelevelAt (>0) the Level of every FilteredLevelWriter is set
+	// to RelevelTo (an application turning verbosity up or down at run time): the fan-out follows
+	RelevelAt int `json:"relevel_at,omitempty"`
+	RelevelTo int `json:"relevel_to,omitempty"`
 }
+
+var builtFilters []*zerolog.FilteredLevelWriter
 
 var errAudit = errors.New("audit destination down")
 
@@ -120,7 +126,9 @@ func build(ds []Dest, outcomes [][]int, leaves *[]*leaf, filters *[][]int, path 
 				ws = append(ws, levelLeaf{lf})
 			case "filtered":
 				p = append(p, d.Filter)
-				ws = append(ws, &zerolog.FilteredLevelWriter{Writer: levelLeaf{lf}, Level: zerolog.Level(d.Filter)})
+				fw := &zerolog.FilteredLevelWriter{Writer: levelLeaf{lf}, Level: zerolog.Level(d.Filter)}
+				builtFilters = append(builtFilters, fw)
+				ws = append(ws, fw)
 			case "sync-plain":
 				ws = append(ws, zerolog.SyncWriter(plainLeaf{lf}))
 			case "sync-level":
@@ -139,6 +147,7 @@ func build(ds []Dest, outcomes [][]int, leaves *[]*leaf, filters *[][]int, path 
 func run(c *Case) (msg string, nontrivial bool) {
 	var leaves []*leaf
 	var filters [][]int
+	builtFilters = nil
 	ws := build(c.Dests, c.Outcomes, &leaves, &filters, nil)
 	var handled []error
 	old := zerolog.ErrorHandler
@@ -162,6 +171,16 @@ func run(c *Case) (msg string, nontrivial bool) {
 	calls := make([]int, len(leaves))
 	want := make([][]got, len(leaves))
 	for ei, lv := range c.Levels {
+		if c.RelevelAt > 0 && ei == c.RelevelAt {
+			for _, fw := range builtFilters {
+				fw.Level = zerolog.Level(c.RelevelTo)
+			}
+			for li := range filters {
+				for k := range filters[li] {
+					filters[li][k] = c.RelevelTo
+				}
+			}
+		}
 		handled = handled[:0]
 		returned := false
 		var directErr error
@@ -394,6 +413,10 @@ func TestRapid(t *testing.T) {
 			c.Direct = true
 		}
 		c.HandlerLogs = !c.Direct && rapid.IntRange(0, 3).Draw(rt, "handlerlogs") == 0
+		if ne >= 2 && rapid.IntRange(0, 3).Draw(rt, "relevel") == 0 {
+			c.RelevelAt = rapid.IntRange(1, ne-1).Draw(rt, "relevelat")
+			c.RelevelTo = rapid.SampledFrom([]int{-1, 0, 2, 3, 7}).Draw(rt, "relevelto")
+		}
 		// nested multi writers report short writes of inner destinations as ErrShortWrite too; the
 		// "first failing destination" is in depth-first order, which the flat model reproduces
 		msg, nt := run(c)
